@@ -624,6 +624,10 @@ func (e *EvalCtx) call(n ECall) Val {
 			e.fail("unknown type %s", exprString(n.Args[0]))
 		}
 		return intVal(e.c.eng.typeTag(t))
+	case "strval": // string payload of an interface value
+		return Val{K: KStr, T: arg(0).IStr, Typ: types.Typ[types.String]}
+	case "intval": // integer payload of an interface value
+		return intVal(arg(0).IVal)
 	case "ptr": // ptr(x): payload reference of an interface, or the pointer itself
 		a := arg(0)
 		if a.K == KIface {
